@@ -17,6 +17,12 @@ pub struct SockServer {
 
 impl SockServer {
     pub fn start(ws: WebServer) -> anyhow::Result<SockServer> {
+        SockServer::start_workers(ws, 1)
+    }
+
+    /// An HttpServer with several worker threads: consecutive connections land on different
+    /// workers, each with its own application instance.
+    pub fn start_workers(ws: WebServer, workers: usize) -> anyhow::Result<SockServer> {
         let (tx, rx) = mpsc::channel();
         let join = std::thread::Builder::new().name("tcss-sock".into()).spawn(move || {
             let r = actix_rt::System::new().block_on(async move {
@@ -24,7 +30,7 @@ impl SockServer {
                     let ws = ws.clone();
                     actix_web::App::new().configure(move |c| ws.config(c))
                 })
-                .workers(1)
+                .workers(workers.max(1))
                 .disable_signals()
                 .shutdown_timeout(1)
                 .bind("127.0.0.1:0");
